@@ -181,6 +181,10 @@ def run_case(rng, acc):
       memo = {}
       cfg = gen.to_fiddle(root, memo)
       v = Sentinel(9) if not deep else rng.choice([[1, [2]], fdl.Config(kinds.two, x=[1])])
+      if not deep and exp_nodes and rng.random() < 0.35:
+        # unify equal sub-configs: the replacement is an equal-but-distinct copy of a match
+        v = gen.to_fiddle(dagedit.structural_clone(rng.choice(exp_nodes))[0])
+        acc.obs('replacement_equal_to_match')
       root_matches = is_match(root)
       try:
         fsel.select(cfg, F, **kwargs).replace(v, deepcopy=deep)
